@@ -63,9 +63,21 @@ theorem restoreRows_eq (E : EqTests K) (hE : LawfulEq E) (cfg : RouteCfg) (dflt 
     (h : rowsGuard E cfg dflt t = true) : restoreRows cfg dflt t = t := by
   unfold restoreRows
   cases hs : cfg.regSame with
-  | true => simp
+  | true =>
+    simp only [rowsGuard, hs, if_true] at h
+    simp only [if_true]
+    have : ∀ p ∈ t, (fun p : String × PRow K => (p.1, (⟨p.2.e, rowCanonEff cfg dflt p⟩ : PRow K))) p = p := by
+      intro p hp
+      have := List.all_eq_true.mp h p hp
+      simp only [beq_iff_eq] at this
+      obtain ⟨k, e, c⟩ := p
+      simp only at this
+      simp [this]
+    calc t.map (fun p => (p.1, (⟨p.2.e, rowCanonEff cfg dflt p⟩ : PRow K))) = t.map id :=
+          List.map_congr_left this
+      _ = t := List.map_id t
   | false =>
-    simp only [rowsGuard, hs, Bool.false_or, Bool.and_eq_true] at h
+    simp only [rowsGuard, hs, Bool.false_eq_true, if_false, Bool.and_eq_true] at h
     obtain ⟨hall, hrem⟩ := h
     have h1 : t.filterMap (restoreRow cfg dflt) = t := by
       apply filterMap_eq_self
@@ -152,7 +164,7 @@ theorem restoreRows_erase (cfg : RouteCfg) (dflt : Lut K) (t : PLut K) :
   have hr : resurrected (keepIdentity cfg) dflt t = resurrected cfg dflt t := rfl
   rw [hs, hr]
   cases cfg.regSame with
-  | true => simp
+  | true => simp [eraseRow, List.map_map, Function.comp_def]
   | false =>
     simp only [Bool.false_eq_true, if_false, List.map_append]
     rw [filterMap_map_congr _ _ eraseRow t (restoreRow_erase cfg dflt)]
@@ -239,14 +251,22 @@ theorem wrapUp_none_result (T : Tables) (eff : List (Effect K)) (c : Call K) (hc
       = .ok { unit := unit, factor := factor, factorItemsize := fsz, mul := mul } := by
   simp [wrapUp, wrapClassFails, finishOut, hc]
 
+/-- the tail shared by the paths: the rule's answer is wrapped up and a factor recorded by `post`
+    (which does not touch the unit) -/
 theorem ru_result_canon (T : Tables) (eff : List (Effect K)) (c : Call K) (hc : c.out = .none)
-    (a b : Except Err (K × Option (UnitV K))) (factor : Option K) (hab : a.map stripP = b.map stripP) :
+    (a b : Except Err (K × Option (UnitV K))) (factor : Option K) (fsz : Option Nat)
+    (post : Outcome K → Outcome K) (hpost : ∀ o, stripO (post o) = post (stripO o))
+    (hab : a.map stripP = b.map stripP) :
     (match a with
       | .error e => (⟨eff, .error e⟩ : Run K)
-      | .ok (mul, unit) => wrapUp T eff c false mul unit factor none).result.map stripO
+      | .ok (mul, unit) =>
+        ⟨(wrapUp T eff c false mul unit factor fsz).effects,
+         (wrapUp T eff c false mul unit factor fsz).result.map post⟩).result.map stripO
     = (match b with
       | .error e => (⟨eff, .error e⟩ : Run K)
-      | .ok (mul, unit) => wrapUp T eff c false mul unit factor none).result.map stripO := by
+      | .ok (mul, unit) =>
+        ⟨(wrapUp T eff c false mul unit factor fsz).effects,
+         (wrapUp T eff c false mul unit factor fsz).result.map post⟩).result.map stripO := by
   cases a with
   | error e1 =>
     cases b with
@@ -259,30 +279,97 @@ theorem ru_result_canon (T : Tables) (eff : List (Effect K)) (c : Call K) (hc : 
       obtain ⟨m1, u1⟩ := p1
       obtain ⟨m2, u2⟩ := p2
       simp only [Except.map, stripP, Except.ok.injEq, Prod.mk.injEq] at hab
-      simp only [wrapUp_none_result T eff c hc, Except.map, stripO, hab.1, hab.2]
+      simp only [wrapUp_none_result T eff c hc, Except.map]
+      rw [hpost, hpost]
+      simp only [stripO, hab.1, hab.2]
 
 theorem unaryPath_canon (Cx : Ufunc.Ctx K) (c : Call K) (hc : c.out = .none) (cls : Cls) (u : UnitV K)
     (rp : String) (d : Data) (eff : List (Effect K)) (h : Dim.isBase3 u.dim = false) :
     (unaryPath Cx c (.unyt cls ⟨{ u with canon := false }, rp⟩ d) eff).result.map stripO
       = (unaryPath Cx c (.unyt cls ⟨u, rp⟩ d) eff).result.map stripO := by
   obtain ⟨h1, h2, h3⟩ := base3_facts u h
-  simp only [unaryPath, isAngle, h1, Bool.and_false, Bool.false_and, Bool.false_eq_true, if_false]
-  cases c.kernelErr with
-  | some e => rfl
-  | none =>
-    simp only
-    apply ru_result_canon Cx.T _ c hc
-    split
-    · simp only [powerMapUnit]
-      cases Cx.T.powerMap.find? (fun x => x.1 == c.ufunc) with
-      | none => rfl
-      | some r => simp [pow_canon u _ h3]
-    · cases Cx.T.ruleOf c.ufunc with
-      | none => rfl
-      | some r => exact applyRule1_canon Cx r u rp h
+  have hg : ∀ w : UnitV K, getConversionFactor Cx.pre Cx.lut w { u with canon := false }
+      = getConversionFactor Cx.pre Cx.lut w u := fun _ => rfl
+  simp only [unaryPath, isAngle, h1, Bool.and_false, Bool.false_and, Bool.false_eq_true, if_false, hg]
+  have tail : ∀ finit : Option K,
+      Except.map stripO
+        (match c.kernelErr with
+          | some e => (⟨eff ++ prepOut Cx.T c.ufunc c.out, .error e⟩ : Run K)
+          | none =>
+            match
+              (if ((c.ufunc == Cx.T.multiplyName || c.ufunc == Cx.T.divideName) && c.method == Method.reduce) = true then
+                Except.map (fun x => ((1 : K), some x))
+                  (powerMapUnit Cx.T c.ufunc { u with canon := false }
+                    (match c.axisLen with | some n => n | none => d.size))
+              else
+                match Cx.T.ruleOf c.ufunc with
+                | none => Except.error Err.KeyError
+                | some r => applyRule1 Cx r ⟨{ u with canon := false }, rp⟩) with
+            | .error e => ⟨eff ++ prepOut Cx.T c.ufunc c.out ++ kernelWrites c.out, .error e⟩
+            | .ok (mul, unit) =>
+              ⟨(wrapUp Cx.T (eff ++ prepOut Cx.T c.ufunc c.out ++ kernelWrites c.out) c false mul unit none none).effects,
+               (wrapUp Cx.T (eff ++ prepOut Cx.T c.ufunc c.out ++ kernelWrites c.out) c false mul unit none none).result.map
+                 fun (o : Outcome K) => { o with factorInitial := finit }⟩).result
+      = Except.map stripO
+        (match c.kernelErr with
+          | some e => (⟨eff ++ prepOut Cx.T c.ufunc c.out, .error e⟩ : Run K)
+          | none =>
+            match
+              (if ((c.ufunc == Cx.T.multiplyName || c.ufunc == Cx.T.divideName) && c.method == Method.reduce) = true then
+                Except.map (fun x => ((1 : K), some x))
+                  (powerMapUnit Cx.T c.ufunc u (match c.axisLen with | some n => n | none => d.size))
+              else
+                match Cx.T.ruleOf c.ufunc with
+                | none => Except.error Err.KeyError
+                | some r => applyRule1 Cx r ⟨u, rp⟩) with
+            | .error e => ⟨eff ++ prepOut Cx.T c.ufunc c.out ++ kernelWrites c.out, .error e⟩
+            | .ok (mul, unit) =>
+              ⟨(wrapUp Cx.T (eff ++ prepOut Cx.T c.ufunc c.out ++ kernelWrites c.out) c false mul unit none none).effects,
+               (wrapUp Cx.T (eff ++ prepOut Cx.T c.ufunc c.out ++ kernelWrites c.out) c false mul unit none none).result.map
+                 fun (o : Outcome K) => { o with factorInitial := finit }⟩).result := by
+    intro finit
+    cases c.kernelErr with
+    | some e => rfl
+    | none =>
+      simp only
+      apply ru_result_canon Cx.T _ c hc _ _ none none (fun (o : Outcome K) => { o with factorInitial := finit })
+        (fun o => rfl)
+      split
+      · simp only [powerMapUnit]
+        cases Cx.T.powerMap.find? (fun x => x.1 == c.ufunc) with
+        | none => rfl
+        | some r => simp [pow_canon u _ h3]
+      · cases Cx.T.ruleOf c.ufunc with
+        | none => rfl
+        | some r => exact applyRule1_canon Cx r u rp h
+  cases c.initial with
+  | none => exact tail none
+  | some op =>
+    cases op with
+    | bare _ => exact tail none
+    | seq _ _ => exact tail none
+    | unyt _ ui _ =>
+      cases hrule : Cx.T.ruleOf c.ufunc with
+      | none =>
+        have t0 := tail none
+        simp only [hrule] at t0 ⊢
+        exact t0
+      | some r =>
+        cases hck : r.checked with
+        | false =>
+          have t0 := tail none
+          simp only [hrule, hck] at t0 ⊢
+          exact t0
+        | true =>
+          cases hgc : getConversionFactor Cx.pre Cx.lut ui.v u with
+          | error e => simp only [hck, hgc, if_true]
+          | ok fo =>
+            have t0 := tail (some fo.1)
+            simp only [hrule, hck, hgc, if_true] at t0 ⊢
+            exact t0
 
 theorem read_off_canon (vals : List K) (num : Outcome K → K → K)
-    (hnum : ∀ o o' : Outcome K, o.factor = o'.factor → o.mul = o'.mul → num o = num o')
+    (hnum : ∀ o o' : Outcome K, o.factor = o'.factor → o.factorFirst = o'.factorFirst → o.mul = o'.mul → num o = num o')
     (r1 r2 : Except Err (Outcome K)) (h : r1.map stripO = r2.map stripO) :
     (match r1 with
       | .error e => (.error e : Except Err (Res K))
@@ -304,9 +391,11 @@ theorem read_off_canon (vals : List K) (num : Outcome K → K → K)
         have := congrArg Outcome.factor h; simpa using this
       have hm : o1.mul = o2.mul := by
         have := congrArg Outcome.mul h; simpa using this
+      have hff : o1.factorFirst = o2.factorFirst := by
+        have := congrArg Outcome.factorFirst h; simpa using this
       have hu : o1.unit.map UnitV.noCanon = o2.unit.map UnitV.noCanon := by
         have := congrArg Outcome.unit h; simpa using this
-      simp only [Except.map, Res.noCanon, hnum o1 o2 hf hm, hu]
+      simp only [Except.map, Res.noCanon, hnum o1 o2 hf hff hm, hu]
 
 end
 end Unyt.C11
